@@ -118,3 +118,31 @@ def structured_inverse_is_true_inverse(env, cfg, ck):
     ck.eq('spec', Ti, A.se_inv(np, T), scale=sc)
     ck.eq('left', Ti @ T, np.eye(T.shape[0]), scale=sc)
     ck.eq('right', T @ Ti, np.eye(T.shape[0]), scale=sc)
+
+
+@contract('C02', targets=[SP + '__mul__', SP + '__truediv__', 'spatialmath.pose3d.SO3.inv', 'spatialmath.pose3d.SE3.inv',
+                          'spatialmath.pose2d.SO2.inv', 'spatialmath.pose2d.SE2.inv'], configs=product(cls=CLASSES, m=[2, 3]))
+def pose_group_laws_on_sequences(env, cfg, ck):
+    """the laws hold for every element of a multi-valued object: inv() element-wise is the inverse, X*X.inv() and
+    X/X are identities, (X*Y).inv() = Y.inv()*X.inv(), (X**n).inv() = X**-n"""
+    np, sm = env.np, env.sm
+    cls, m = cfg['cls'], cfg['m']
+    C = getattr(sm, cls)
+    ms = [member(env, cls, 'abc'[i]) for i in range(m)]
+    ns = [member(env, cls, 'def'[i]) for i in range(m)]
+    X, Y = C(ms, check=False), C(ns, check=False)
+    n = ms[0].shape[0]
+    sc = tscale(np, cls, *(ms + ns))
+    Xi = ck.call(X.inv)
+    ck.is_instance('inv-class', Xi, C)
+    ck.true('inv-len', len(Xi) == m)
+    XXi, XiX, XdX = ck.call(lambda: X * Xi), ck.call(lambda: Xi * X), ck.call(lambda: X / X)
+    XYi, YiXi = ck.call(lambda: (X * Y).inv()), ck.call(lambda: Y.inv() * X.inv())
+    P2i, Pm2 = ck.call(lambda: (X ** 2).inv()), ck.call(lambda: X ** -2)
+    for i in range(m):
+        ck.eq('inv-spec[%d]' % i, Xi.data[i], inverse_spec(np, cls, ms[i]), scale=sc)
+        ck.eq('inv-right[%d]' % i, XXi.data[i], np.eye(n), scale=sc)
+        ck.eq('inv-left[%d]' % i, XiX.data[i], np.eye(n), scale=sc)
+        ck.eq('div-self[%d]' % i, XdX.data[i], np.eye(n), scale=sc)
+        ck.eq('inv-of-product[%d]' % i, XYi.data[i], YiXi.data[i], scale=sc * sc)
+        ck.eq('inv-of-power[%d]' % i, P2i.data[i], Pm2.data[i], scale=sc * sc)
